@@ -438,8 +438,7 @@ def gen_props(rng, kind, mode, cover=None):
 # independent comparison of an original and a rebuilt sliver (property oracle)
 # ----------------------------------------------------------------------------------------------
 KNOWN_TAGS = {
-    'image-pair': 'image_ref / image_type are only stored as a pair',
-    'unset-unmapped': 'image_type / stitch_node have no unset mapping',
+    'lone-image-half': 'a NodeSliver carrying only one of image_ref / image_type loses it in the sliver-level converters',
 }
 
 
@@ -462,7 +461,7 @@ def diff_attrs(kind, orig, back, path, out):
         if nothing_set(ov) and bv is None:
             continue
         if k in ('image_ref', 'image_type') and bv is None and (od.get('image_ref') is None or od.get('image_type') is None):
-            tag = 'image-pair'
+            tag = 'lone-image-half'
         out.append((tag, '%s.%s: %s became %s' % (path, k, json.dumps(ov)[:80], json.dumps(bv)[:80])))
     for k in bd:
         if k not in od:
@@ -1128,16 +1127,12 @@ class Element(Stream):
                     continue
                 if st[0] == 'set':
                     if json.dumps(got) != json.dumps(st[1]) and not (nothing_set(st[1]) and got is None):
-                        tag = None
-                        if p in ('image_ref', 'image_type') and st[2] == 'single':
-                            tag = 'image-pair'      # set without its partner: a no-op, the old value (or None) is read
+                        tag = None      # element level: no recorded finding any more (c7cf34d)
                         devs.append((tag, 'op %d get %s after set: %s, expected %s' % (idx, p, json.dumps(got)[:70], json.dumps(st[1])[:70])))
                 elif st[0] == 'unset':
                     if got is not None and not (p == 'stitch_node' and got == ['FBool', False]
                                                 and p in G.SLIVER_PROPERTY_TO_GRAPH):   # a flag reads its default
                         tag = None
-                        if p in ('image_type', 'stitch_node') and p not in G.SLIVER_PROPERTY_TO_GRAPH:
-                            tag = 'unset-unmapped'
                         devs.append((tag, 'op %d get %s after unset: %s, expected None' % (idx, p, json.dumps(got)[:70])))
         return verdict(devs)
 
@@ -1190,29 +1185,17 @@ def load_corpus(stream):
 # ----------------------------------------------------------------------------------------------
 # refuted-theorem witnesses replayed on the implementation
 # ----------------------------------------------------------------------------------------------
-def w_image():
+def w_lone_half():
+    """sliver level: a NodeSliver with image_ref but no image_type, through the flat converters"""
     I = Impl.get()
-    t, el = make_topology()
-    n = el['node']
-    out = {}
-    try:
-        n.set_property('image_ref', 'img')
-        a = n.get_property('image_ref')
-        n.set_property('image_type', 'qcow2')
-        b = n.get_property('image_type')
-    except Exception as e:      # proposed fix C02-4: a lone half is refused loudly instead of dropped
-        reset_store()
-        return False, {'lone image_ref': 'refused with ' + type(e).__name__}
-    n.set_properties(image_ref='img', image_type='qcow2')
-    n.set_property('image_type', None)
-    c = n.get_property('image_type')
-    n.set_property('stitch_node', True)
-    n.set_property('stitch_node', None)
-    d = n.get_property('stitch_node')
-    reset_store()
-    return (a is None and b is None and c == 'qcow2' and d is True), {
-        'get image_ref after set_property(image_ref)': a, 'get image_type after set_property(image_type)': b,
-        'get image_type after unset': c, 'get stitch_node after set True, unset': d}
+    G = I.ABCPropertyGraph
+    s = I.NodeSliver()
+    s.set_name('n1')
+    s.set_image_ref('img')
+    d = G.node_sliver_to_graph_properties_dict(s)
+    back = G.node_sliver_from_graph_properties_dict(d)
+    return (back.image_ref is None), {'original image_ref': 'img', 'graph properties': sorted(d),
+                                      'rebuilt image_ref': back.image_ref}
 
 
 class C02(Check):
@@ -1243,7 +1226,7 @@ class C02(Check):
     ]
 
     def refuted_witnesses(self):
-        return [('C02_image_pair_and_unmapped_unset', w_image)]
+        return [('C02_lone_image_half_lost_in_conversion', w_lone_half)]
 
     def extra_static(self, ctx):
         """the generators know a value for every setter the library's classes expose (a new setter without a
